@@ -880,7 +880,8 @@ func (client *client) subscribeHandler(sub *packets.Subscribe) *codes.Error {
 	for k, v := range sub.Topics {
 		sub := subReq.Subscriptions[v.Name].Sub
 		subErr := converError(subReq.Subscriptions[v.Name].Error)
-		var isShared bool
+		// a shared subscription is shared whatever the protocol version of the subscriber (no retained replay)
+		isShared := sub.ShareName != ""
 		code := sub.QoS
 		if client.version == packets.Version5 {
 			if sub.ShareName != "" {
